@@ -89,16 +89,30 @@ func (api *HTTP) getMessages(ctx context.Context, lastSeen robust.Id, msgschan c
 	// Id=1431542836610113945.
 	// Hence, we need to Get(1431542836610113945.2) to send
 	// 1431542836610113945.3 and following to the client.
-	if msgs, ok := api.output().Get(lastSeen); ok && int(lastSeen.Reply) < len(msgs) {
-		select {
-		case <-ctx.Done():
-			return
-		case msgschan <- outputToRobustMessages(msgs[lastSeen.Reply:]):
+	// seen tracks whether this node has stored the output for lastSeen.Id: a
+	// node which is still catching up (e.g. recovering from a snapshot, or
+	// with a slow network connection) might only apply that input later.
+	seen := false
+	if msgs, ok := api.output().Get(lastSeen); ok {
+		seen = true
+		if int(lastSeen.Reply) < len(msgs) {
+			select {
+			case <-ctx.Done():
+				return
+			case msgschan <- outputToRobustMessages(msgs[lastSeen.Reply:]):
+			}
 		}
 	}
 
 	for {
-		if msgs = api.output().GetNext(ctx, lastSeen); len(msgs) == 0 {
+		from := lastSeen
+		if !seen && lastSeen.Id > 0 {
+			// Also accept the output for lastSeen.Id itself, of which the
+			// client might have received only the first lastSeen.Reply
+			// messages.
+			from = robust.Id{Id: lastSeen.Id - 1}
+		}
+		if msgs = api.output().GetNext(ctx, from); len(msgs) == 0 {
 			if ctx.Err() != nil {
 				return
 			}
@@ -118,6 +132,16 @@ func (api *HTTP) getMessages(ctx context.Context, lastSeen robust.Id, msgschan c
 			continue
 		}
 
+		if !seen && msgs[0].Id.Id == lastSeen.Id {
+			// The output for lastSeen.Id was stored only now: skip what the
+			// client already received instead of sending it a second time.
+			seen = true
+			if int(lastSeen.Reply) >= len(msgs) {
+				continue
+			}
+			msgs = msgs[lastSeen.Reply:]
+		}
+		seen = true
 		lastSeen = msgs[0].Id
 		select {
 		case <-ctx.Done():
